@@ -504,7 +504,8 @@ class Column:
         if isinstance(p_list[-1], dict) and p_list[-1].get("encode"):
             p[0]["encode"] = p[0].get("encode", p_list[-1]["encode"])
         if p[0].get("check"):
-            if isinstance(p[0].get("check"), dict) or (
+            # (a str: the text was already built when the previous attribute was reduced)
+            if isinstance(p[0].get("check"), (dict, str)) or (
                 isinstance(p[0].get("check"), list)
                 and isinstance(p[0].get("check")[0], dict)
                 and p[0].get("check")[0].get("in_statement")
